@@ -147,12 +147,22 @@ def run_case(case):
         if case.get("wform") != "array" or w is None:
             return w
         return {k: jnp.asarray(x) for k, x in w.items()} if isinstance(w, dict) else jnp.asarray(w)
+    shared_obj = None
+    if case["samekeys"] and case["wdyn"] == "dict" and case["wcon"] == "dict":
+        # the user passes one and the same dictionary object for the equation weights and for a constraint weight
+        shared_obj = form(wd)
+    w_ic, w_obs, w_bc = form(wc("ic", 0)), form(wc("obs", 1)), form(wc("bc", 2))
+    w_dyn = shared_obj if shared_obj is not None else form(wd)
+    if shared_obj is not None:
+        w_ic = shared_obj
+    user_dicts = [d_ for d_ in (w_dyn, w_ic, w_obs, w_bc) if isinstance(d_, dict)]
+    before = [{k: float(x) for k, x in d_.items()} for d_ in user_dicts]
     if kind == "ode":
-        lw = jinns.loss.LossWeightsODEDict(dyn_loss=form(wd), initial_condition=form(wc("ic", 0)), observations=form(wc("obs", 1)))
+        lw = jinns.loss.LossWeightsODEDict(dyn_loss=w_dyn, initial_condition=w_ic, observations=w_obs)
         ic = reorder({n: ((0.3, jnp.asarray([0.2 * (i + 1)])) if has(n, "ic") else None) for i, n in enumerate(names)})
         loss = L.quiet(jinns.loss.SystemLossODE, u_dict=u_dict, dynamic_loss_dict=dyn, initial_condition_dict=ic, loss_weights=lw, params_dict=pd)
     else:
-        lw = jinns.loss.LossWeightsPDEDict(dyn_loss=form(wd), norm_loss=None, boundary_loss=form(wc("bc", 2)), observations=form(wc("obs", 1)), initial_condition=form(wc("ic", 0)))
+        lw = jinns.loss.LossWeightsPDEDict(dyn_loss=w_dyn, norm_loss=None, boundary_loss=w_bc, observations=w_obs, initial_condition=w_ic)
         bf = (lambda dx: 0.25) if kind == "statio" else (lambda t, dx: 0.25)
         kw = dict(omega_boundary_fun_dict={n: (bf if has(n, "bc") else None) for n in names},
                   omega_boundary_condition_dict={n: ("dirichlet" if has(n, "bc") else None) for n in names},
@@ -163,6 +173,9 @@ def run_case(case):
     total, terms = L.jit_eval(loss, pd, batch)
     total, terms = float(total), {k: float(x) for k, x in terms.items()}
     v = []
+    after = [{k: float(x) for k, x in d_.items()} for d_ in user_dicts]
+    if after != before:
+        v.append(V(site, "constructor_modified_the_users_weight_dictionary", f"{before} -> {after}"))
     # eager evaluation (Python-level dict iteration order is only visible here: jit re-sorts pytree dictionaries)
     etotal, eterms = loss.evaluate(pd, batch)
     eterms = {k: float(x) for k, x in eterms.items()}
@@ -200,6 +213,8 @@ def run_case(case):
             if term not in exp:
                 continue
             w = wc(nm, j0)
+            if nm == "ic" and shared_obj is not None:
+                w = {k_: before[0][k_] for k_ in before[0]}
             w = 0.0 if w is None else (w[n] if isinstance(w, dict) else w)
             exp[term] += w * st.get(term, 0.0)
     cfg = {k: v_ for k, v_ in case.items()}
